@@ -336,7 +336,7 @@ inductive Res where
   | eof
   | pos (n : Nat)
   | listing (names : List Name)   -- Readdir: the returned batch
-  | info (isDir : Bool) (size : Nat)
+  | info (isDir : Bool) (size : Nat) (name : Option Name)   -- `name`: FileInfo.Name of a Stat by path
   deriving DecidableEq, Repr
 
 def fileData (s : State) (h : Handle) : List Nat :=
@@ -385,21 +385,31 @@ def seekPos (len pos : Nat) (off : Int) (whence : Nat) : Option Nat :=
     else if whence = 1 then (pos : Int) + off
     else if whence = 2 then (len : Int) + off
     else -1
-  if npos < 0 then none else some npos.toNat
+  -- a negative position is refused; so is one past 2^63-1 (Go's `int` addition wraps to a negative value)
+  if npos < 0 ∨ npos ≥ 9223372036854775808 then none else some npos.toNat
 
 /-- Success value with the error kind dropped. -/
 def okOf {α : Type} : Except Err α → Option α
   | .ok a => some a
   | .error _ => none
 
-def statRes : Option Entry → Res
-  | some (.file d) => .info false d.length
-  | some .dir => .info true 0
+/-- `FileInfo` of a Stat by (cleaned) path: the name is the last component, `/` for the root. -/
+def statRes (p : Path) : Option Entry → Res
+  | some (.file d) => .info false d.length (some (p.getLast?.getD [47]))
+  | some .dir => .info true 0 (some (p.getLast?.getD [47]))
   | none => .err
+
+/-- Largest allocation `make([]byte, n)` accepts on 64-bit Linux (`maxAlloc`, 2^48); beyond it
+`memFile.Write` answers "file too large". -/
+def memMaxAlloc : Nat := 281474976710656
+
+/-- Offsets beyond this are refused by the native filesystem (ext4 with 4 KiB blocks: 16 TiB);
+the exact limit is filesystem dependent and never approached by the generators. -/
+def osMaxOffset : Nat := 17592186044416
 
 /-- Steps that do not depend on the flavour once the handle is known to be usable. -/
 def fstatRes (s : State) (hd : Handle) : Res :=
-  if hd.isDir then .info true 0 else .info false (fileData s hd).length
+  if hd.isDir then .info true 0 none else .info false (fileData s hd).length none
 
 namespace Mem
 
@@ -419,6 +429,9 @@ def step (s : State) : Op → State × Res
     | some hd =>
       if hd.isDir || hd.acc == 0 then (s, .err)        -- ErrInvalid / not opened for writing
       else if data = [] then (s, .wrote 0)             -- a zero-length Write changes nothing
+      else if (if hd.app then (fileData s hd).length else hd.pos) > (fileData s hd).length ∧
+              (if hd.app then (fileData s hd).length else hd.pos) + data.length > memMaxAlloc then
+        (s, .err)                                      -- the hole cannot be allocated: "file too large"
       else
         let r := Mem.writeAt (fileData s hd) (if hd.app then (fileData s hd).length else hd.pos) data
         (setPos (setFileData s hd r.1) h r.2, .wrote data.length)
@@ -461,7 +474,7 @@ def step (s : State) : Op → State × Res
     match okOf (Mem.removeAll s.tree p) with
     | none => (s, .err)
     | some _ => (effRemove s p, .ok)
-  | .stat p => (s, statRes (okOf (Mem.stat s.tree p)))
+  | .stat p => (s, statRes p (okOf (Mem.stat s.tree p)))
   | .fstat h =>
     match s.handles[h]? with
     | none => (s, .badHandle)
@@ -488,6 +501,8 @@ def step (s : State) : Op → State × Res
     | some hd =>
       if hd.isDir || hd.acc == 0 then (s, .err)        -- EBADF
       else if data = [] then (s, .wrote 0)             -- a zero-length write(2) does nothing
+      else if (if hd.app then (fileData s hd).length else hd.pos) + data.length > osMaxOffset then
+        (s, .err)                                      -- EFBIG
       else
         -- write(2) at the handle's offset, at the end for `O_APPEND`
         let r := Mem.writeAt (fileData s hd) (if hd.app then (fileData s hd).length else hd.pos) data
@@ -511,7 +526,7 @@ def step (s : State) : Op → State × Res
       if hd.isDir then (s, .err)     -- unspecified (filesystem dependent); never generated
       else match seekPos (fileData s hd).length hd.pos off whence with
         | none => (s, .err)
-        | some np => (setPos s h np, .pos np)
+        | some np => if np > osMaxOffset then (s, .err) else (setPos s h np, .pos np)
   | .readdir h count =>
     match s.handles[h]? with
     | none => (s, .badHandle)
@@ -532,7 +547,7 @@ def step (s : State) : Op → State × Res
     match okOf (Os.removeAll s.tree p) with
     | none => (s, .err)
     | some _ => (effRemove s p, .ok)
-  | .stat p => (s, statRes (okOf (Os.stat s.tree p)))
+  | .stat p => (s, statRes p (okOf (Os.stat s.tree p)))
   | .fstat h =>
     match s.handles[h]? with
     | none => (s, .badHandle)
